@@ -25,7 +25,7 @@ add("C12", "proof",
 
 add("C13", "proof",
     "Contracts on the real packers/unpackers (polyEta/T1/T0/Z/W1 Pack and Unpack), key layouts (packPk/unpackPk/packSk/unpackSk) and unpackSig: each states the FIPS 204 bit-packing relation 'packed bytes read as a little-endian integer = coefficient offsets read as base-2^b digits' per block, for every value in range and every block position (symbolic block index), plus lemmas that in-range digits are unique (unpack(pack(v)) = v, pack(unpack(b)) = b) and unpackSig accepts exactly the canonical hint encodings. Discharged for all inputs.",
-    "packSig is under contract for safety, the z/challenge layout and the hint-weight accounting (k = number of non-zero hint coefficients <= omega); the decoded-hint characterisation of unpackSig (which positions become 1) and the hint-vector round trip are not yet discharged (DESIGN.md). Trusted: govc, solvers, spec reading of FIPS 204 algorithms 16-21.",
+    "Signature level: packSig is proved to write the challenge, the z packing and the hint encoding (cumulative count bytes, strictly increasing positions per row, zero padding), unpackSig is proved to decode exactly the listed positions, and the lemma function verifLemmaSigRoundTrip proves unpackSig(packSig(c,z,h)) = (c,z,h) with acceptance for every in-range z and every binary hint vector of weight <= omega. Not discharged: pack(unpack(s)) = s for the hint section of an accepted s (needs uniqueness of a strictly increasing enumeration; the z and challenge parts follow from the canonical-digit lemmas). Trusted: govc, solvers, spec reading of FIPS 204 algorithms 16-21.",
     "contract-based deductive verification: VCs from the typed Go AST of /repo, exact machine-integer encoding with arithmetic bit-operation identities, z3/cvc5",
     "DESIGN.md section 4 C13")
 add("C14", "proof",
@@ -75,14 +75,14 @@ add("C08", "other",
 
 add("C05", "proof",
     "Contracts on the real cryptoSignVerify, unpackSig, polyVecLChkNorm, cryptoSignOpen, Verify, Open: acceptance implies (a) the hint trailer is canonical (unpackSig returns 0 exactly on canonical encodings: non-decreasing counts <= omega, strictly increasing positions per row, zero padding), (b) every coefficient of the response decoded from the signature bytes has centred absolute value < gamma1-beta, (c) all 32 challenge bytes equal SHAKE-256(mu || packed w1') with mu = SHAKE-256(SHAKE-256(pk)[0:32] || m)[0:64] and the packed buffer the exact nibble packing of the recomputed w1'; errors are never turned into acceptance; Open returns non-nil exactly when the signature part verifies on the message part and then returns exactly that message; z-packing is canonical (lemma L_canon_z).",
-    "'Any flipped bit / other message / other key is rejected' is a collision-resistance statement and is not claimed (DESIGN.md section 9). The decoded-hint characterisation of unpackSig (which positions become 1) and the re-encoding lemma for the hint trailer are not yet discharged. Clauses (c) are internal postconditions (`exit` clauses over the function's locals). SHAKE model T4.",
+    "'Any flipped bit / other message / other key is rejected' is a collision-resistance statement and is not claimed (DESIGN.md section 9). unpackSig's decoded-hint characterisation (exactly the listed positions become 1) is proved; the re-encoding lemma for the hint trailer is not. Clauses (c) are internal postconditions (`exit` clauses over the function's locals). SHAKE model T4.",
     "contract-based deductive verification: functional contracts with uninterpreted hashes on the real verification code, z3/cvc5",
     "DESIGN.md section 4 C05")
 
 add("C04", "proof",
-    "Contracts on the real Verify / VerifyWithCustomWOTSParamW / xmssVerifySig: acceptance implies a supported hash id (0..2), a height field consistent with the signature length (len = 2180 + 32h, h = 2*(pk[1]&15) >= 4), and equals xmssVerifySig on exactly (hash id, WOTS parameters for w, message, signature, pk[3:67], h); xmssVerifySig accepts iff all 32 bytes of the recomputed root equal pk[0:32] (and the message fits the 32-bit length arithmetic), with the index read big-endian from sig[0:4], the message-hash key R || root || toByte(idx,32) built from sig[4:36] and the key's root, OTS/L-tree/node addresses (type 0/1/2, index idx), public seed pk[32:64], and the authentication path taken at offset 36 + keySize. The check found that a public key naming hash id 3..15 with a zero root was accepted for any message (fixed, known_findings.json).",
-    "Collision-type claims ('any flipped bit is rejected') are not claimed. The argument wiring of the sub-computations is pinned through `exit` clauses over the function's locals and `pure` abstractions of the callees (purity by the effects back end). validateAuthPath carries a full functional contract: its output is the Merkle fold of RFC 8391 Algorithm 13 (recursive specification function `fold` in spec/00_core.smt2) of the leaf, the index and the authentication path, proved with loop invariants and congruence lemmas. The WOTS chains and the L-tree are covered by C06's hash-construction contracts and bounded reference run, not by a recursive specification.",
-    "contract-based deductive verification: functional contracts and internal postconditions on the real verification code with uninterpreted hashes, z3/cvc5; purity by go/ssa effects analysis",
+    "Verify_lib <=> Verify_spec for every input, with the hash primitives uninterpreted: xmssVerifySig is proved to return true exactly when the message fits the 32-bit length arithmetic and the first 32 bytes of pk equal the root computed by a CLOSED-FORM specification of XMSS verification (RFC 8391 Algorithm 14 with the QRL conventions) as a function of the inputs only: message hash H_msg(R || root || toByte(idx,32), M); WOTS+ public key from the signature (base-w digits of the hash and of the left-shifted checksum, chain i from digit to w-1 under OTS address idx, recursive spec `chain`); L-tree leaf (recursive spec `lnode`, odd nodes carried up); Merkle fold of leaf, index and authentication path (recursive spec `fold`). Each callee (hMsg, CalcBaseW, genChain, wotsPKFromSig, lTree, validateAuthPath, hashF, hashH, prf, coreHash) carries its functional contract, the composition is proved with anchored assertions in xmssVerifySig, and the congruence facts the composition needs (the specs depend on addresses only through words 0..4 and on byte strings only through their contents) are lemmas proved by induction. Verify / VerifyWithCustomWOTSParamW: acceptance implies a supported hash id (0..2), a height field consistent with the signature length (len = 4+32+keySize+32h, h = 2*(pk[1]&15) >= 4), and equals xmssVerifySig on exactly (hash id, WOTS parameters for w, message, signature, pk[3:67], h). The check found that a public key naming hash id 3..15 with a zero root was accepted for any message (fixed, known_findings.json).",
+    "Collision-type claims ('any flipped bit / other key is rejected') are cryptographic, not functional, and are not claimed. Hashes are uninterpreted functions of their input bytes (T4). The specification functions are written from RFC 8391 in spec/00_core.smt2 and are themselves trusted as the statement of 'what the scheme defines'.",
+    "contract-based deductive verification: functional contracts with recursive specification functions and induction lemmas on the real verification code, uninterpreted hashes, z3/cvc5; purity by go/ssa effects analysis",
     "DESIGN.md section 4 C04")
 add("C06", "other",
     "Deductive (all inputs): each hash construction, address/toByte serialisation, seed derivation, key-generation seed expansion and layout, and the signing-side wiring equals its RFC 8391/QRL specification over uninterpreted hash primitives; Verify == VerifyWithCustomWOTSParamW(16). Bounded (labelled): byte-identity of public key and every signature with an independent full-Merkle-tree reference implementation for heights 4 (quick) / 4,6,8 (thorough), three hash functions; label run of the traversal as in C01.",
@@ -98,7 +98,7 @@ add("C10", "proof",
 
 add("C07", "other",
     "Deductive (all inputs): the signer cryptoSignSignature is verified for safety and ranges on every path of its rejection loop and `after` assertions pin the specification's acceptance conditions with exact bounds (||z|| < gamma1-beta, ||LowBits(w-cs2)|| < gamma2-beta, ||ct0|| < gamma2, hint weight <= omega, canonical z encoding); arithmetic components equal their specification functions (C12), encodings lossless and canonical (C13); cryptoSign is a function of (message, key) and re-signing after other calls gives the identical signature (effects back end + lemma function verifLemmaSignAgain). Bounded (labelled): byte identity of public key, secret key and deterministic signature with an independent specification-level implementation (schoolbook arithmetic mod q, NTT-domain matrix inverted by direct interpolation) on VERIF_SEED-derived seeds and messages for a fixed time budget, with boundary cases recognised and counted.",
-    "Level 'other' = proved components + bounded whole-object comparison. Not under functional contract: sampler outputs as functions of the XOF stream, NTT-domain product = ring product beyond C12's table checks, composition into whole-key/whole-signature equality. Termination of rejection loops assumed.",
+    "Level 'other' = proved components + bounded whole-object comparison. Samplers are under functional contract: ExpandMask (polyUniformGamma1 = 20-bit unpacking of SHAKE-256(seed || nonce LE)), SampleInBall (polyChallenge = recursive specification `sib` of the SHAKE-256 stream incl. the refill path), rejUniform / rejEta at the candidate level (acceptance test, value map, order), absorbed input and stream-window invariants of polyUniform / polyUniformEta (found the refill-offset defect F3, fixed). Not under functional contract: composition of the candidate-level sampler contracts into 'polynomial = first 256 accepted candidates of the stream', NTT-domain product = ring product beyond C12's table checks, composition into whole-key/whole-signature equality. Termination of rejection loops assumed.",
     "contract-based deductive verification of the real signer (safety, exact rejection bounds as anchored assertions, purity); bounded differential run against an independent specification-level implementation, labelled bounded",
     "DESIGN.md section 4 C07")
 add("C03", "other",
